@@ -43,7 +43,7 @@ def drive(rec):
     n = rec["n"]
     t = {"n": n, "gram": rec["gram"], "asym": rec["asym"], "mols": rec["mols"], "bonds": rec["bonds"], "ops": [],
          "switched": bool(rec.get("via_switch")), "pre": rec.get("pre", {}), "choice": rec["choice"],
-         "thr": xtal.bond_table(rec), "mass": xtal.mass_table(rec), "exc_conn": "", "exc_mols": "",
+         "thr": xtal.bond_table(rec), "mass": xtal.mass_table(rec), "u2m": int(rec.get("u2m", 0)), "exc_conn": "", "exc_mols": "",
          "exc_unique": "", "off": False, "ucpts": [], "edges": [], "ucmols": [], "unique": [], "bfs": [],
          "meta": {"recipe": rec, "source": rec.get("src", "random"),
                   "impl_call": "Crystal(...%d %r).unit_cell_connectivity/unit_cell_molecules/symmetry_unique_molecules" % (
@@ -113,6 +113,12 @@ def gen(args):
         if rec is not None:
             rec["src"] = "switched in place H->R after use"
         return rec if rec is not None else {"__none__": True, "meta": {}}
+    if nmols == "heavy":
+        # molecules with terminal Cl / Br / I / S atoms at ordinary single-bond lengths (C-I 2.06-2.36 A ...)
+        rec = xtal.gen_molecular(rng, row, nmols=1, sizes=sizes, halogens=0.6, vol_per_atom=rng.choice([44.0, 56.0]), max_tries=120)
+        if rec is not None:
+            rec["src"] = "heavy terminal atoms"
+        return rec if rec is not None else {"__none__": True, "meta": {}}
     rec = xtal.gen_molecular(rng, row, nmols=nmols, sizes=sizes)
     return rec if rec is not None else {"__none__": True, "meta": {}}
 
@@ -127,6 +133,9 @@ def make_recipes(ctx, rows, per_setting):
                 nm = 2
             sizes = (2, 3) if big else ctx.rng.choice([(2, 3, 4), (2, 3, 4, 5), (2, 4), (3,)])
             jobs.append((r, ctx.seed * 1000003 + i * 31 + k, nm, sizes))
+    small = [r for r in rows if len(r["ops"]) <= 16]
+    for j in range(ctx.pick(48, 1500)):
+        jobs.append((small[(j * 37 + ctx.seed) % len(small)], ctx.seed * 19 + 6000 + j, "heavy", (2, 3) if j % 3 else (2, 3, 4)))
     hex_rows = [r for r in rows if r["number"] in (146, 148, 155, 160, 161, 166, 167) and r["choice"] == "H"]
     for j in range(max(7, 2 * per_setting * 7)):
         jobs.append((hex_rows[j % 7], ctx.seed * 17 + 4000 + j, "switched", (2, 3) if j % 2 else (2, 3, 4)))
